@@ -4,6 +4,7 @@
 //!   harness gen <Cxx> <seed> <n> <quick|thorough>      > ops.txt
 //!   harness run <Cxx> < ops.txt                        > "<impl result>\t<oracle verdict>" per op
 mod common;
+mod enc;
 mod fixtures;
 mod props;
 
